@@ -12,6 +12,9 @@ from . import externs as EXT
 from . import spec as SPECMOD
 
 
+from .types import SameAs as T_SameAs
+
+
 class FunctionReport:
     def __init__(self, qualname):
         self.qualname = qualname
@@ -61,9 +64,15 @@ def verify_function(repo, registry, qualname, only_variant=None):
                     interp.global_state[(m.name, gname)] = v
                     ctx.inputs[pname] = (ty, v)
                     continue
+                if isinstance(ty, T_SameAs):
+                    continue
                 v = ty.fresh(pname, ctx)
                 bound[pname] = v
                 ctx.inputs[pname] = (ty, v)
+            for (pname, _), ty in zip(ptypes, combo):
+                if isinstance(ty, T_SameAs):
+                    bound[pname] = bound[ty.other]
+                    ctx.inputs[pname] = (ty, bound[pname])
             # bind against the real signature (defaults come from the real code when a parameter is
             # not mentioned by the contract)
             real_params = [a.arg for a in fnode.args.posonlyargs + fnode.args.args + fnode.args.kwonlyargs]
@@ -89,6 +98,19 @@ def verify_function(repo, registry, qualname, only_variant=None):
                 bound[fnode.args.vararg.arg] = VTuple([])
             env.vars.update(bound)
             env.local_names = assigned_names(fnode) | set(bound)
+            for pn, pv in bound.items():
+                if isinstance(pv, Value) and pv.mutable:
+                    pv.frame_name = f"argument {pn}"
+                if pn in c.may_modify and isinstance(pv, Value):
+                    interp.frame_ok.add(id(pv))
+            if "self" in bound and qualname.endswith(".__init__"):
+                interp.frame_ok.add(id(bound["self"]))
+            if fnode.args.kwarg and isinstance(bound.get(fnode.args.kwarg.arg), Value):
+                interp.birth[id(bound[fnode.args.kwarg.arg])] = 0      # **kwargs is a fresh dict per call
+            if "self" in bound and isinstance(bound["self"], VObj):
+                for an, av in bound["self"].attrs.items():
+                    if isinstance(av, Value) and av.mutable:
+                        av.frame_name = f"self.{an}"
             spec_env = c.spec_env(interp, dict(bound))
             # snapshot of mutable inputs for old(...)
             for cl in c.requires:
@@ -219,8 +241,13 @@ def lemma_obligations(repo, registry, qualname):
                     if pname.startswith("global:"):
                         interp.global_state[(m_.name, pname.split(":", 1)[1])] = ty.fresh(pname.split(":", 1)[1], ctx)
                         continue
+                    if isinstance(ty, T_SameAs):
+                        continue
                     bound[pname] = ty.fresh(pname, ctx)
                     ctx.inputs[pname] = (ty, bound[pname])
+                for (pname, _), ty in zip(ptypes, combo):
+                    if isinstance(ty, T_SameAs):
+                        bound[pname] = bound[ty.other]
                 env = c.spec_env(interp, bound)
                 for r in c.requires:
                     ctx.assume(interp.as_bool_term(c.eval_spec(interp, r.expr, env)))
@@ -258,9 +285,14 @@ def reachability(repo, registry, qualname):
                 if pname.startswith("global:"):
                     interp.global_state[(m.name, pname.split(":", 1)[1])] = ty.fresh(pname.split(":", 1)[1], ctx)
                     continue
+                if isinstance(ty, T_SameAs):
+                    continue
                 v = ty.fresh(pname, ctx)
                 bound[pname] = v
                 ctx.inputs[pname] = (ty, v)
+            for (pname, _), ty in zip(ptypes, combo):
+                if isinstance(ty, T_SameAs):
+                    bound[pname] = bound[ty.other]
             env = c.spec_env(interp, bound)
             for cl in c.requires:
                 ctx.assume(interp.as_bool_term(c.eval_spec(interp, cl.expr, env)))
